@@ -50,7 +50,7 @@ let init_of_header (hd : string list) : st * sst =
         let p = bytes_of_tok (String.sub l 1 (String.length l - 1)) in (Tab (p, m), STab (p, s))
       else failwith ("bad layer " ^ l)) (m0, s0) layers
 
-type pop = Op of op | Lit of string * handle * n list option * n list option | Lnext of string | Lrel of string
+type pop = Op of op | Skip
 
 let parse_op (t : string list) : pop =
   match t with
@@ -73,9 +73,11 @@ let parse_op (t : string list) : pop =
   | ["shas"; i; k] -> Op (OSHas (nat_of_tok i, bytes_of_tok k))
   | ["sit"; i; p; s] -> Op (OSIter (nat_of_tok i, okey_of_tok p, okey_of_tok s))
   | ["compact"; h; a; l] -> Op (OCompact (handle_of_tok h, okey_of_tok a, okey_of_tok l))
-  | ["lit"; id; h; p; s] -> Lit (id, handle_of_tok h, okey_of_tok p, okey_of_tok s)
-  | ["lnext"; id; _] -> Lnext id
-  | ["lrel"; id] -> Lrel id
+  | ["ecompact"; h; a; l] -> Op (OECompact (handle_of_tok h, okey_of_tok a, okey_of_tok l))
+  | ["lit"; id; h; p; s] -> Op (OLit (nat_of_tok id, handle_of_tok h, okey_of_tok p, okey_of_tok s))
+  | ["lnext"; id; n] -> Op (OLNext (nat_of_tok id, nat_of_tok n))
+  | ["lrel"; id] -> Op (OLRel (nat_of_tok id))
+  | ["reopen"] -> Skip      (* close the engine and reopen the same directory: the map persists *)
   | _ -> failwith ("bad op: " ^ String.concat " " t)
 
 let toks_of_obs (o : obs) : string list =
@@ -91,6 +93,10 @@ let toks_of_obs (o : obs) : string list =
   | BNfp n -> ["N"; tok_of_nat n]
   | BCompact (Some (lo, hi)) -> ["C"; tok_of_okey lo; tok_of_okey hi]
   | BCompact None -> ["C"; "!"; "!"]
+  | BCompactErr ok -> ["E"; if ok then "ok" else "err"]
+  | BLive (Some l) -> "L" :: string_of_int (List.length l) ::
+                      List.concat_map (fun (k, v) -> [tok_of_bytes k; tok_of_bytes v]) l
+  | BLive None -> ["L?"]
   | BNone -> ["X"]
 
 (* take the implementation's tokens of one observation off the stream *)
@@ -98,7 +104,7 @@ let rec take n l = if n <= 0 then ([], l) else match l with [] -> ([], []) | x :
 let next_chunk (impl : string list) : string list * string list =
   match impl with
   | [] -> ([], [])
-  | ("G" | "H" | "N") :: _ -> take 2 impl
+  | ("G" | "H" | "N" | "E") :: _ -> take 2 impl
   | "C" :: _ -> take 3 impl
   | "X" :: r -> (["X"], r)
   | ("I" | "L") :: n :: r -> (match int_of_string_opt n with
@@ -157,28 +163,58 @@ and eval_history (inp : string list) (impl : string list) : Drv.verdict =
   let parts = split_on ";" inp in
   let header, ops = (match parts with h :: o -> h, o | [] -> failwith "empty case") in
   let m0, s0 = init_of_header header in
-  let r = ref { r_store = m0; r_batches = []; r_snaps = [] } in
-  let sr = ref { ss_store = s0; ss_batches = []; ss_snaps = [] } in
+  (* live-safe stack: an engine base and at most one tree-bearing layer (see KvOps.op_kills_lives) *)
+  let lsafe = (match header with
+    | b :: layers -> String.length b >= 3 && (String.sub b 0 3 = "ldb" || String.sub b 0 3 = "pbl")
+                     && List.length (List.filter (fun l -> l = "f" || l = "z") layers) <= 1
+    | [] -> false) in
+  let r = ref { r_store = m0; r_batches = []; r_snaps = []; r_lives = [] } in
+  let sr = ref { ss_store = s0; ss_batches = []; ss_snaps = []; ss_lives = [] } in
   let rest = ref impl in
   let model_toks = ref [] and spec_ok = ref true and ms_ok = ref true and nontriv = ref false in
-  let note = ref "" in
-  let lives : (string, (n list option * n list option * n list option)) Hashtbl.t = Hashtbl.create 4 in
+  let note = ref "" and flags = ref [] in
+  let lives : (int, (n list option * n list option * n list option)) Hashtbl.t = Hashtbl.create 4 in
   let opno = ref 0 in
   let fail_spec what = if !spec_ok then note := Printf.sprintf "first spec mismatch at op %d (%s)" !opno what; spec_ok := false in
+  (* ALIAS:<op> (an argument buffer was modified) and ERR:<op> (an error was returned) are never
+     predicted: each is a failure of the specification on the implementation; they are taken off
+     the stream so that the following observations stay aligned *)
+  let skip_flags () =
+    let rec go () = match !rest with
+      | t :: r when String.length t > 4 && (String.sub t 0 4 = "ERR:" || (String.length t > 6 && String.sub t 0 6 = "ALIAS:")) ->
+        fail_spec (if t.[0] = 'A' then "the store wrote into a byte slice passed to it: " ^ t else "unexpected error: " ^ t);
+        flags := t :: !flags; rest := r; go ()
+      | _ -> () in go () in
   List.iter (fun t ->
     incr opno;
     if t <> [] then
     match parse_op t with
+    | Skip -> ()
     | Op o ->
-      let (r', om) = run_op ideal_batch_size !r o in
-      let (sr', os) = spec_run_op !sr o in
+      let (r', om) = run_op lsafe ideal_batch_size !r o in
+      let (sr', os) = spec_run_op lsafe !sr o in
       let sr_before = !sr in
       r := r'; sr := sr';
+      (match o with
+       | OLit (i, _, p, s) -> Hashtbl.replace lives (int_of_nat i) (p, s, None)
+       | OLRel i -> Hashtbl.remove lives (int_of_nat i)
+       | _ -> ());
       List.iter2 (fun om os ->
-        let mt = toks_of_obs om in
-        model_toks := List.rev_append mt !model_toks;
+        skip_flags ();
         let (chunk, rest') = next_chunk !rest in
         rest := rest';
+        let mt = (match om with BLive None -> chunk | _ -> toks_of_obs om) in   (* not predicted: echoed *)
+        model_toks := List.rev_append mt !model_toks;
+        (* whatever the model predicts, a live iterator must stay ordered and inside its range *)
+        (match o with
+         | OLNext (i, _) ->
+           (match Hashtbl.find_opt lives (int_of_nat i) with
+            | Some (p, s, last) ->
+              let (ok, last') = live_ok (p, s, last) chunk in
+              Hashtbl.replace lives (int_of_nat i) (p, s, last');
+              if not ok then fail_spec "live iterator: order/prefix"
+            | None -> if chunk <> ["X"] then fail_spec "live iterator")
+         | _ -> ());
         (match o, om with
          | OCompact (h, a, l), BCompact rng ->
            if not (compact_ok sr_before.ss_store h a l rng) then ms_ok := false;
@@ -187,27 +223,19 @@ and eval_history (inp : string list) (impl : string list) : Drv.verdict =
               let irng = if ilo = "!" then None else Some (okey_of_tok ilo, okey_of_tok ihi) in
               if not (compact_ok sr_before.ss_store h a l irng) then fail_spec "compact range does not cover the table"
             | _ -> fail_spec "compact")
+         | OECompact _, _ ->
+           (match chunk with ["E"; _] -> () | _ -> fail_spec "ecompact")
+         | OLNext _, BLive None -> ()
          | _ ->
            let st = toks_of_obs os in
            if st <> mt then ms_ok := false;
            if st <> chunk then fail_spec (String.concat " " t);
            (match om with
-            | BIter (_ :: _) | BGet (Some _) | BReplay (_ :: _) -> nontriv := true
+            | BIter (_ :: _) | BGet (Some _) | BReplay (_ :: _) | BLive (Some (_ :: _)) -> nontriv := true
             | BNfp n when n <> O -> nontriv := true
             | _ -> ()))) om os
-    | Lit (id, _, p, s) -> Hashtbl.replace lives id (p, s, None)
-    | Lnext id ->
-      let (chunk, rest') = next_chunk !rest in
-      rest := rest';
-      model_toks := List.rev_append chunk !model_toks;      (* not modelled: echoed *)
-      (match Hashtbl.find_opt lives id with
-       | Some (p, s, last) ->
-         let (ok, last') = live_ok (p, s, last) chunk in
-         Hashtbl.replace lives id (p, s, last');
-         if not ok then fail_spec "live iterator: order/prefix"
-       | None -> if chunk <> ["X"] then fail_spec "live iterator")
-    | Lrel id -> Hashtbl.remove lives id
   ) ops;
+  skip_flags ();
   if !rest <> [] then begin
     (* extra implementation tokens (ERR:..., PANIC ...) *)
     fail_spec ("unexpected tokens: " ^ String.concat " " !rest)
